@@ -174,7 +174,7 @@ def parse_harness_tags():
                     kv = pending
                     pending = None
                     hs.append(dict(
-                        name=m2.group(1), file=f, module=MOD_OF[inv[f]] + "::kani_h",
+                        name=m2.group(1), file=f, module=MOD_OF[inv[f]] + "::kani_h" + ("::" + kv["mod"] if "mod" in kv else ""),
                         props=kv.get("props", "").split(","), tier=kv.get("tier", "quick"),
                         build=kv.get("build", "plain"), kind=kv.get("kind", "proof"),
                         site=kv.get("site"), bounded=kv.get("bounded"), finding=kv.get("finding"),
